@@ -156,7 +156,7 @@ pub fn parse_header(b: &[u8]) -> Option<RawHeader> {
     Some(h)
 }
 
-fn small(v: u64) -> i64 {
+pub fn small(v: u64) -> i64 {
     if v >= HUGE as u64 {
         HUGE
     } else {
